@@ -90,6 +90,7 @@ func (c *ReplayCache) Add(id string, salt []byte) bool {
 	defer c.mutex.Unlock()
 	if _, ok := c.active[hash]; ok {
 		// Fast replay: `salt` is already in the active set.
+		vtrace("replay.add", int64(hash), 0)
 		return false
 	}
 	_, inArchive := c.archive[hash]
@@ -99,6 +100,7 @@ func (c *ReplayCache) Add(id string, salt []byte) bool {
 		c.active = make(map[uint32]empty, c.capacity)
 	}
 	c.active[hash] = empty{}
+	vtrace("replay.add", int64(hash), vbool(!inArchive))
 	return !inArchive
 }
 
@@ -110,6 +112,7 @@ func (c *ReplayCache) Resize(capacity int) error {
 	c.mutex.Lock()
 	defer c.mutex.Unlock()
 	c.capacity = capacity
+	vtrace("replay.resize", int64(capacity), 0)
 	// NOTE: The active handshakes and archive lists are not explicitly shrunk.
 	// Their sizes will naturally adjust as new handshakes are added and the cache
 	// adheres to the updated capacity.
